@@ -710,6 +710,9 @@ def weighted_accuracy(comparisons, weights):
     weights = weights[valid_idx]
     # Normalize the weights
     total_weight = float(np.sum(weights))
+    if total_weight == 0:
+        warnings.warn("No nonzero weights among comparable chords, returning 0")
+        return 0
     normalized_weights = np.asarray(weights, dtype=float) / total_weight
     # Score is the sum of all weighted comparisons
     return np.sum(comparisons * normalized_weights)
